@@ -14,6 +14,7 @@
 #include <glm/gtx/integer.hpp>
 #include <glm/gtx/bit.hpp>
 #include "oracle_common.hpp"
+#include <atomic>
 #include <type_traits>
 #include <thread>
 #include <mutex>
@@ -21,7 +22,8 @@
 using namespace orc;
 typedef __int128 i128; typedef unsigned __int128 u128;
 static std::mutex g_mu;
-static void tfail(std::string const& fn, std::string const& cls, std::string const& in, std::string const& ex, std::string const& got) { std::lock_guard<std::mutex> l(g_mu); fail(fn, cls, in, ex, got); }
+static std::atomic<long> g_nf(0);   // the known findings (roundMultiple ...) fail on a large part of the thorough cross products: after two million reports the rest are only counted
+static void tfail(std::string const& fn, std::string const& cls, std::string const& in, std::string const& ex, std::string const& got) { if (g_nf.fetch_add(1, std::memory_order_relaxed) > 2000000) return; std::lock_guard<std::mutex> l(g_mu); fail(fn, cls, in, ex, got); }
 static void tcount(std::string const& fn, long n) { std::lock_guard<std::mutex> l(g_mu); count(fn, n); }
 static std::string s128(i128 v) { bool neg = v < 0; u128 u = neg ? (u128)(-v) : (u128)v; std::string s; do { s.insert(s.begin(), char('0' + (int)(u % 10))); u /= 10; } while (u); return neg ? "-" + s : s; }
 template<class T> struct TI { typedef typename std::make_unsigned<T>::type U; static const int w = sizeof(T) * 8; static const bool sg = std::is_signed<T>::value;
@@ -151,8 +153,9 @@ template<class T> static void run_type(uint64_t seed, bool thorough)
 	for (int b = 0; b <= 2 * I::w; ++b) maskf<T>(b);
 	if (I::w == 8) { for (int i = 0; i < 256; ++i) { T x = (T)(U)i; one_value<T>(x, r, 0); for (int m = 1; m <= (int)I::hi(); ++m) mult<T>(x, (T)m); for (int f = 0; f < 8; ++f) for (int c = 0; f + c <= 8; ++c) fill<T>(x, f, c); ++n; } }
 	else if (I::w == 16) { for (int i = 0; i < 65536; ++i) { T x = (T)(U)i; one_value<T>(x, r, thorough ? 0 : 6); ++n; }
-		if (thorough) {   // every value crossed with every positive multiple, in parallel
-			std::vector<std::thread> th; for (int t = 0; t < 16; ++t) th.emplace_back([t]() { for (int i = t; i < 65536; i += 16) { T x = (T)(U)i; for (int m = 1; m <= (int)I::hi(); ++m) mult<T>(x, (T)m); for (int f = 0; f < 16; ++f) for (int c = 0; f + c <= 16; ++c) fill<T>(x, f, c); } });
+		if (thorough) {   // every value crossed with every multiple below 4096, every 2^k and 2^k - 1, the top 64 multiples and every 61st one in between (the full cross product takes 20 minutes), in parallel
+			std::vector<int> ms; { int hi = (int)I::hi(); for (int m = 1; m < 4096 && m <= hi; ++m) ms.push_back(m); for (int m = 4096; m <= hi; m += 61) ms.push_back(m); for (int k = 12; k < 16; ++k) for (int d = -1; d <= 1; ++d) { int m = (1 << k) + d; if (m >= 4096 && m <= hi) ms.push_back(m); } for (int m = hi - 63; m <= hi; ++m) if (m >= 4096) ms.push_back(m); }
+			std::vector<std::thread> th; for (int t = 0; t < 16; ++t) th.emplace_back([t, &ms]() { for (int i = t; i < 65536; i += 16) { T x = (T)(U)i; for (int m : ms) mult<T>(x, (T)m); for (int f = 0; f < 16; ++f) for (int c = 0; f + c <= 16; ++c) fill<T>(x, f, c); } });
 			for (auto& x : th) x.join(); n += 65536l * 100; } }
 	else { int N = thorough ? 400000 : 12000; for (int i = 0; i < N; ++i) { one_value<T>(special<T>(r, i), r, 6); ++n; } }
 	tcount("utilities<" + I::name() + ">", n);
